@@ -103,9 +103,9 @@ func (r *ClusterReconciler) reconcileLfsProxyService(ctx context.Context, cluste
 		svc.Spec.Ports = ports
 		svc.Spec.Type = parseServiceType(cluster.Spec.LfsProxy.Service.Type)
 		svc.Annotations = annotations
-		if len(cluster.Spec.LfsProxy.Service.LoadBalancerSourceRanges) > 0 {
-			svc.Spec.LoadBalancerSourceRanges = append([]string{}, cluster.Spec.LfsProxy.Service.LoadBalancerSourceRanges...)
-		}
+		// Assigned unconditionally so that removing the allow list from the
+		// cluster spec also removes it from an existing Service.
+		svc.Spec.LoadBalancerSourceRanges = append([]string(nil), cluster.Spec.LfsProxy.Service.LoadBalancerSourceRanges...)
 		return controllerutil.SetControllerReference(cluster, svc, r.Scheme)
 	})
 	return err
